@@ -4,6 +4,8 @@ import re
 import hir as H
 import mir as M
 import rulelib as L
+import symrules as SR
+import sym
 import c01
 
 CRATES = ["identity_core"]
@@ -25,37 +27,27 @@ def run(F, R, tier):
     r1.require(any(p == TS + "::from_unix" for p, _, _ in cons), (TS + "::from_unix", "ANCHOR"), "from_unix no longer constructs Timestamp")
     r1.exception(TS + "::now_utc", "reviewed", "system clock: assumed between years 0000 and 9999 (documented in the source)")
     fn = TS + "::from_unix"
-    h = F.hir(fn)
-    body = F.mir(fn)
-    if r1.anchor(h, fn) and r1.anchor(body, fn):
-        env = H.Env(h)
-        tree, infos = L.exit_infos(h)
-        for e in infos:
-            if not L.is_success_exit(e):
+    if r1.anchor(F.hir(fn), fn):
+        # by abstract evaluation: every accepting path converted `seconds` with OffsetDateTime::from_unix_timestamp ✓, bounded the
+        # year of that very value to 0..=9999, and wraps that value
+        tab = SR.Table(F, fn, opaque=r"OffsetDateTime::from_unix_timestamp$|OffsetDateTime::year$", rule=r1)
+        n = 0
+        for q in tab.ok():
+            n += 1
+            cv = [e for e in q.calls(r"from_unix_timestamp$") if q.succeeded(e) is True and sym.term(e.args[0]) == SR.param("seconds")]
+            if not r1.require(len(cv) == 1, (fn, "arg"), "from_unix does not convert its `seconds` argument with OffsetDateTime::from_unix_timestamp (error propagated)"):
                 continue
-            ok = False
-            for c in e.conds:
-                if c[0] != "if":
-                    continue
-                inner, neg = H.negated(c[1])
-                inner = H.strip(inner)
-                if inner.get("k") == "mcall" and inner["name"] == "contains":
-                    rng = H.strip(inner["recv"])
-                    lits = H.literals(rng)
-                    arg_o = H.origins(inner["args"][0], env, accessors=re.compile(r"OffsetDateTime::year$"))
-                    is_range = rng.get("k") == "struct" and H.variant_name(rng["res"]) == "Range"
-                    holds = (neg and c[2] is False) or ((not neg) and c[2] is True)
-                    r1.site("from_unix: Ok guarded by (%s).contains(year of %s): %s" % (lits, sorted(map(str, arg_o)), holds), inner["sp"])
-                    if is_range and lits == [0, 10000] and holds and arg_o == {("call", "time::offset_date_time::OffsetDateTime::from_unix_timestamp", "year")}:
-                        ok = True
-            r1.require(ok, (fn, "range-gate"), "from_unix can return Ok without `(0..10_000).contains(&year)` of the converted value having been established", e.node.get("sp"))
-            # the value wrapped is the converted one
-            _, inner_v = H.ctor_class(e.node)
-            vo = H.origins(inner_v, env)
-            r1.require(vo == {("call", "time::offset_date_time::OffsetDateTime::from_unix_timestamp")}, (fn, "wraps"), "from_unix does not wrap OffsetDateTime::from_unix_timestamp(seconds)?: %s" % sorted(map(str, vo)))
-        for c in H.calls(h, re.compile(r"OffsetDateTime::from_unix_timestamp$")):
-            r1.require(H.origins(c["args"][0], env) == {("param", "seconds")}, (fn, "arg"), "from_unix does not convert its `seconds` argument")
-        L.mir_success_dominates(r1, F, fn, re.compile(r"OffsetDateTime::from_unix_timestamp$"), "OffsetDateTime::from_unix_timestamp")
+            val = ("payload", cv[0].result.t, "Ok", 0)
+            yr = ("call", "time::offset_date_time::OffsetDateTime::year", (val,))
+            lo, hi = SR.int_bounds(q, lambda t_: t_ == yr)
+            r1.site("from_unix: Ok with year(from_unix_timestamp(seconds)) ∈ [%s, %s]" % (lo, hi))
+            r1.require(lo == 0 and hi == 9999, (fn, "range-gate"), "from_unix can return Ok without the year of the converted value having been bounded to 0..=9999 (established: [%s, %s])" % (lo, hi))
+            out = q.ret.fields[0] if isinstance(q.ret, sym.V) and q.ret.fields else None
+            inner = out.f.get("0") if isinstance(out, sym.St) else None
+            r1.require(inner is not None and sym.term(inner) == val, (fn, "wraps"), "from_unix does not wrap OffsetDateTime::from_unix_timestamp(seconds)?: %r" % (out,))
+        for q in tab.err():
+            r1.require(SR.err_name(q.ret) == "InvalidTimestamp", (fn, "error"), "from_unix rejects with %s, expected InvalidTimestamp" % SR.err_name(q.ret))
+        r1.require(n > 0 or not tab.paths, (fn, "no-success"), "from_unix has no accepting path")
     # parse: every success value is the result of from_unix(parsed.unix_timestamp())
     fn = TS + "::parse"
     h = F.hir(fn)
@@ -76,7 +68,7 @@ def run(F, R, tier):
         # no panicking offset conversion
         r1.require(not any(f.endswith("OffsetDateTime::to_offset") for f in H.called_fns(H.root(h))), (fn, "to_offset"), "parse uses the panicking OffsetDateTime::to_offset")
     # with the `custom_time` feature now_utc delegates to the user's hook and constructs nothing itself
-    r1.floor(4 if F.has_feature("identity_core", "custom_time") else 5)
+    r1.floor(3 if F.has_feature("identity_core", "custom_time") else 4)
 
     # ------------------------------------------------------------------ R2 checked arithmetic
     r2 = R.rule("C13-R2", "T2+T3", "checked_add/checked_sub return Some only through from_unix(result.unix_timestamp()) ✓; Duration constructors widen to i64 before scaling (no u32 arithmetic)")
